@@ -2,6 +2,7 @@
 package main
 
 import (
+	"os"
 	"fmt"
 	"go/ast"
 	"go/constant"
@@ -108,99 +109,139 @@ func c04R1(c *Ctx, p *Prog) {
 	}
 	n := 0
 	for _, fn := range p.Funcs("benchfmt") {
-		stores := storesToField(fn, unitF)
-		if len(stores) == 0 {
+		if len(storesToField(fn, unitF)) == 0 {
 			continue
 		}
+		site := p.pos(fn.Pos())
 		tidies := callsIn(fn, tidyPkg, "", "Tidy")
-		for i, st := range stores {
+		if len(tidies) == 0 {
 			n++
-			key := fmt.Sprintf("%s:store Value.Unit#%d", fnName(fn), i)
-			site := p.pos(instrPos(st))
-			if len(tidies) == 0 {
-				c.Bad(R, key, site, "Value.Unit is stored in a function that never calls benchunit.Tidy: the unit is not normalised")
+			// copying a Value (Unit loaded from another Value) is fine; anything else stores an un-normalised unit
+			for i, st := range storesToField(fn, unitF) {
+				if f, _ := loadOfField(st.Val); f == unitF {
+					c.OK(R, fmt.Sprintf("%s:store Value.Unit#%d", fnName(fn), i), p.pos(instrPos(st)), "copies Unit from another Value")
+				} else {
+					c.Bad(R, fmt.Sprintf("%s:store Value.Unit#%d", fnName(fn), i), p.pos(instrPos(st)), "Value.Unit is stored in a function that never calls benchunit.Tidy: the unit is not normalised")
+				}
+			}
+			continue
+		}
+		// Judge what is finally recorded, path by path: evaluate the region around each Tidy call (the loop iteration
+		// that contains it, or the whole function) and look at the Value appended to Result.Values at the end of the path.
+		for ti, tc := range tidies {
+			tcInstr := tc.(ssa.Instruction)
+			var start *ssa.BasicBlock
+			var pred *ssa.BasicBlock
+			var stop map[*ssa.BasicBlock]bool
+			for _, lp := range naturalLoops(fn) {
+				if lp.Blocks[tcInstr.Block()] {
+					if s := loopBodyStart(lp); s != nil {
+						start, pred, stop = s, lp.Header, iterStop(lp, s)
+					} else {
+						// for { ... }: one iteration runs from the header back to the header
+						start, pred, stop = lp.Header, nil, map[*ssa.BasicBlock]bool{lp.Header: true}
+					}
+				}
+			}
+			if start == nil {
+				start = fn.Blocks[0]
+			}
+			mk := func() *e6Interp { return &e6Interp{PureCall: func(f *types.Func) bool { return true }, MaxAtoms: 18} }
+			outs, why := e6Enumerate(mk, start, pred, stop, 4096)
+			if why != "" {
+				c.Undecided(R, fmt.Sprintf("%s:tidy#%d", fnName(fn), ti+1), site, why)
 				continue
 			}
-			// Which complit / struct does the store belong to.
-			_, base := fieldOfAddr(st.Addr)
-			var verdictDone bool
-			for _, tc := range tidies {
-				tv := tc.Value()
-				if tv == nil {
+			isTidy := func(s *Sym, idx int) (*Sym, bool) {
+				if s != nil && s.Op == "extract" && s.Idx == idx && len(s.Args) == 1 && s.Args[0].Op == "call" && strings.HasPrefix(s.Args[0].Name, tidyPkg+".Tidy") {
+					return s.Args[0], true
+				}
+				return nil, false
+			}
+			nRec := 0
+			if os.Getenv("PERFCHECK_DEBUG") != "" {
+				fmt.Fprintf(os.Stderr, "DEBUG %s: %d outcomes start=%v\n", fnName(fn), len(outs), start)
+				for _, o := range outs {
+					fmt.Fprintf(os.Stderr, "  term=%s nacts=%d mem=%s\n", o.Term, len(o.Actions), truncate(memDump(o), 900))
+				}
+			}
+			for _, o := range outs {
+				// the element appended to Result.Values on this path (the interpreter keeps struct elements field by field)
+				fields := map[string]*Sym{}
+				found := false
+				for mk, mv := range o.Mem {
+					if !strings.HasSuffix(mk, ".Values") || mv.Op != "call" || mv.Name != "append" || len(mv.Args) != 2 || mv.Args[1].Op != "slice" {
+						continue
+					}
+					arr := mv.Args[1].Args[0].String()
+					for _, f := range []string{"Unit", "Value", "OrigUnit", "OrigValue"} {
+						if v, ok := o.Mem["&indexaddr("+arr+",0)."+f]; ok {
+							fields[f] = v
+							found = true
+						}
+					}
+					if els := o.VarArgs(e6Action{Args: mv.Args}); len(els) == 1 && els[0].Op == "struct" {
+						for f, v := range els[0].Fields {
+							fields[f] = v
+							found = true
+						}
+					}
+				}
+				if !found {
 					continue
 				}
-				rawUnit := tc.Common().Args[1]
-				rawVal := tc.Common().Args[0]
+				n++
+				nRec++
+				key := fmt.Sprintf("%s:recorded[%s]", fnName(fn), truncate(o.AssignStr(), 110))
+				el := &Sym{Op: "struct", Fields: fields}
+				for _, f := range []string{"Unit", "Value", "OrigUnit", "OrigValue"} {
+					if fields[f] == nil {
+						fields[f] = &Sym{Op: "zero", Name: f}
+					}
+				}
+				U, Vv, OU, OV := el.Fields["Unit"], el.Fields["Value"], el.Fields["OrigUnit"], el.Fields["OrigValue"]
+				if call, ok := isTidy(U, 1); ok {
+					rawVal, rawUnit := call.Args[0].String(), call.Args[1].String()
+					_, okV := isTidy(Vv, 0)
+					c.Check(okV && OU != nil && OU.String() == rawUnit && OV != nil && OV.String() == rawVal, R, key, site,
+						"tidied unit recorded with Tidy's value; OrigValue/OrigUnit hold the pair as written",
+						fmt.Sprintf("the tidied unit is recorded but its companions are wrong (Value from Tidy: %v, OrigUnit: %s, OrigValue: %s)", okV, truncate(OU.String(), 60), truncate(OV.String(), 60)))
+					continue
+				}
+				// the unit as written: only where it equals Tidy's unit, decided by comparing the strings
+				guarded, floatGuard := false, ""
+				var call *Sym
+				for k, v := range o.Assign {
+					s := o.AtomSyms[k]
+					if s.Op != "binop" || len(s.Args) != 2 {
+						continue
+					}
+					for i := 0; i < 2; i++ {
+						if tcall, ok := isTidy(s.Args[i], 1); ok && U != nil && s.Args[1-i].String() == U.String() && tcall.Args[1].String() == U.String() {
+							call = tcall
+							if (s.Tok == token.EQL && v) || (s.Tok == token.NEQ && !v) {
+								guarded = true
+							}
+						}
+						if _, ok := isTidy(s.Args[i], 0); ok && (s.Tok == token.EQL || s.Tok == token.NEQ) {
+							floatGuard = truncate(k, 80)
+						}
+					}
+				}
+				_ = call
 				switch {
-				case extractOf(st.Val, tv, 1):
-					// Tidied unit: the raw pair must be kept alongside.
-					okU, okV := false, false
-					for _, s2 := range storesToField(fn, origUnitF) {
-						if _, b2 := fieldOfAddr(s2.Addr); b2 == base && sameValue(s2.Val, rawUnit) {
-							okU = true
-						}
-					}
-					for _, s2 := range storesToField(fn, origValF) {
-						if _, b2 := fieldOfAddr(s2.Addr); b2 == base && sameValue(s2.Val, rawVal) {
-							okV = true
-						}
-					}
-					okT := false
-					for _, s2 := range storesToField(fn, valF) {
-						if _, b2 := fieldOfAddr(s2.Addr); b2 == base && extractOf(s2.Val, tv, 0) {
-							okT = true
-						}
-					}
-					c.Check(okU && okV && okT, R, key, site,
-						"tidied unit stored with Tidy's value; OrigValue/OrigUnit receive the raw pair",
-						fmt.Sprintf("tidied unit stored but companion stores are wrong (Value from Tidy: %v, OrigValue raw: %v, OrigUnit raw: %v)", okT, okV, okU))
-					verdictDone = true
-				case sameValue(st.Val, rawUnit):
-					// Raw unit: must be guarded by string equality with the tidied unit.
-					guarded := false
-					var floatGuard string
-					for _, f := range factsAt(st.Block()) {
-						bo, ok := f.Cond.(*ssa.BinOp)
-						if !ok {
-							continue
-						}
-						if isFloat(bo.X.Type()) && instrDominates(tc, f.If) {
-							floatGuard = fmt.Sprintf("%s %s %s", bo.X.Name(), bo.Op, bo.Y.Name())
-						}
-						if !isString(bo.X.Type()) {
-							continue
-						}
-						pair := (extractOf(bo.X, tv, 1) && sameValue(bo.Y, rawUnit)) || (extractOf(bo.Y, tv, 1) && sameValue(bo.X, rawUnit))
-						if pair && ((bo.Op == token.EQL && f.True) || (bo.Op == token.NEQ && !f.True)) {
-							guarded = true
-						}
-					}
-					switch {
-					case guarded && floatGuard == "":
-						c.OK(R, key, site, "raw unit kept only where it equals Tidy's unit (string comparison)")
-					case floatGuard != "":
-						c.Bad(R, key, site, "the written unit is kept depending on a float comparison ("+floatGuard+"): for 0, ±Inf (and NaN-free factors) the comparison holds although the unit needs rewriting, so one metric is split between two unit names")
-					default:
-						c.Bad(R, key, site, "the written unit is stored without a string-equality guard against Tidy's unit")
-					}
-					verdictDone = true
-				}
-				if verdictDone {
-					break
+				case floatGuard != "":
+					c.Bad(R, key, site, "the written unit is kept depending on a float comparison ("+floatGuard+"): for 0, ±Inf (and NaN-free factors) the comparison holds although the unit needs rewriting, so one metric is split between two unit names")
+				case guarded:
+					c.OK(R, key, site, "the unit as written is recorded only where it equals Tidy's unit (string comparison)")
+				default:
+					c.Bad(R, key, site, "the unit recorded on this path ("+truncate(U.String(), 80)+") is neither Tidy's unit nor the written unit under a string-equality test against Tidy's unit")
 				}
 			}
-			if !verdictDone {
-				// e.g. copying a Value: accept a store of another Value's Unit load (same field), else undecided.
-				if f, _ := loadOfField(st.Val); f == unitF {
-					c.OK(R, key, site, "copies Unit from another Value")
-				} else {
-					c.Undecided(R, key, site, "stored unit is neither Tidy's result nor its argument: "+valStr(st.Val))
-				}
-			}
-			// No float comparison on a dominating edge between Tidy and this store.
+			c.Floor(R, fmt.Sprintf("paths recording a measurement around Tidy call #%d in %s", ti+1, fnName(fn)), nRec, 2)
 		}
 	}
-	c.Floor(R, "stores to Value.Unit in package benchfmt", n, 1)
+	c.Floor(R, "recorded measurements judged in package benchfmt", n, 1)
 }
 
 // ---- R2: tables ----
@@ -771,6 +812,58 @@ func c04R3(c *Ctx, p *Prog) {
 		c.Undecided(R, "anchor:tokenizer", "", "no function in benchunit both ranges over the unit and updates the denominator flag")
 		return
 	}
+	// a loop may have been replaced by strings.IndexFunc/TrimLeftFunc with a rune predicate of the package: the
+	// predicate's tests on its rune parameter form that loop's separator set
+	eachInstr(tokFn, func(_ *ssa.BasicBlock, in ssa.Instruction) {
+		call, ok := in.(*ssa.Call)
+		if !ok {
+			return
+		}
+		var preds []*ssa.Function
+		if sc := call.Call.StaticCallee(); sc != nil && sc.Pkg != nil && sc.Pkg.Pkg.Path() == tidyPkg {
+			preds = append(preds, sc)
+		}
+		for _, a := range call.Call.Args {
+			switch x := stripConv(a).(type) {
+			case *ssa.Function:
+				preds = append(preds, x)
+			case *ssa.MakeClosure:
+				if f, ok := x.Fn.(*ssa.Function); ok {
+					preds = append(preds, f)
+				}
+			}
+		}
+		for _, f := range preds {
+			if f.Blocks == nil || f.Signature.Params().Len() != 1 || f.Signature.Results().Len() != 1 || !isBoolT(f.Signature.Results().At(0).Type()) {
+				continue
+			}
+			if b, ok := f.Signature.Params().At(0).Type().Underlying().(*types.Basic); !ok || b.Kind() != types.Int32 {
+				continue
+			}
+			prm := f.Params[len(f.Params)-1]
+			eachInstr(f, func(_ *ssa.BasicBlock, in2 ssa.Instruction) {
+				switch y := in2.(type) {
+				case *ssa.BinOp:
+					if y.Op != token.EQL && y.Op != token.NEQ {
+						return
+					}
+					if cv, ok := constInt(y.Y); ok && stripConv(y.X) == prm {
+						if sets[prm] == nil {
+							sets[prm] = map[string]bool{}
+						}
+						sets[prm][string(rune(cv))] = true
+					}
+				case *ssa.Call:
+					if objIs(calleeObj(&y.Call), "unicode", "", "IsSpace") && stripConv(y.Call.Args[0]) == prm {
+						if sets[prm] == nil {
+							sets[prm] = map[string]bool{}
+						}
+						sets[prm]["<space>"] = true
+					}
+				}
+			})
+		}
+	})
 	wantSet := "* - / <space>"
 	var all []string
 	for nx, s := range sets {
@@ -1053,4 +1146,13 @@ func c04R6(c *Ctx, p *Prog) {
 		}
 	}
 	c.Floor("C04/R7", "rewrite loops", nLoops, 1)
+}
+
+func memDump(o *e6Outcome) string {
+	var ks []string
+	for k, v := range o.Mem {
+		ks = append(ks, k+" := "+truncate(v.String(), 100))
+	}
+	sort.Strings(ks)
+	return strings.Join(ks, " ; ")
 }
